@@ -498,4 +498,161 @@ theorem pGuard_false_of_nomove {st : St α} {sp : Sp α} {f : Nat → Nat} (hsim
     simp only []
     rw [hnm _ k s' hrep hop]; rfl
 
+
+
+/-! ### pointer arguments into the same array: `a.append(a.data()+j, k)`, `a.copy(a.data()+j, k)`; raw `remove` -/
+
+theorem refines_appown (E : Elem α) (j k : Nat) :
+    Refines (fun s => let j' := j % (s.n + 1); appendOwn E s j' (k % (s.n - j' + 1)))
+      (fun l : List α => let j' := j % (l.length + 1); l ++ (l.drop j').take (k % (l.length - j' + 1))) := by
+  intro s l k0 h
+  have hn := h.1
+  dsimp only
+  rw [hn]
+  generalize hj : j % (l.length + 1) = j'
+  generalize hk : k % (l.length - j' + 1) = k'
+  have hj' : j' ≤ l.length := by rw [← hj]; exact Nat.le_of_lt_succ (Nat.mod_lt _ (Nat.succ_pos _))
+  have hk' : j' + k' ≤ l.length := by
+    have := Nat.mod_lt k (Nat.succ_pos (l.length - j')); rw [hk] at this; omega
+  obtain ⟨s1, k1, hs1, hrep1, hrc1, hlive1⟩ := resize_refines E (s.n + k') s l k0 h
+  dsimp only at hs1 hrep1 hlive1
+  have e1 : l.take (s.n + k') ++ List.replicate (s.n + k' - l.length) E.dflt = l ++ List.replicate k' E.dflt := by
+    rw [List.take_of_length_le (by omega), hn]; simp
+  rw [e1] at hrep1 hlive1
+  obtain ⟨hn1, hc1, hpos1⟩ := hrep1
+  have hX : ((l.drop j').take k').length = k' := by simp; omega
+  have hm : l.map some = (l.take j').map some ++ ((l.drop j').take k').map some ++ (l.drop (j' + k')).map some := by
+    rw [← List.map_append, ← List.map_append, ← split3 l j' k']
+  have hc1' : s1.cells = (l.take j').map some ++ ((l.drop j').take k').map some ++ (l.drop (j' + k')).map some ++
+      (List.replicate k' E.dflt).map some ++ List.replicate k1 none := by
+    rw [hc1, cellsOf, List.map_append, hm]
+  have hs2 := assignSelf_disjoint k' ((l.drop j').take k') (List.replicate k' E.dflt) s1 ((l.take j').map some)
+    ((l.drop (j' + k')).map some) (List.replicate k1 none) s.n j' hc1' hX (by simp) (by simp; omega) (by simp; omega)
+  refine ⟨{ s1 with cells := (l.take j').map some ++ ((l.drop j').take k').map some ++ (l.drop (j' + k')).map some ++
+      ((l.drop j').take k').map some ++ List.replicate k1 none }, k1, ?_, ⟨?_, ?_, ?_⟩, ?_, ?_⟩
+  · unfold appendOwn
+    simp only []
+    rw [hn] at hs1 hs2 ⊢
+    rw [hs1, Option.bind_some]; exact hs2
+  · simp only []; rw [hn1]; simp; omega
+  · simp only [cellsOf, List.map_append]
+    rw [hm]
+  · simp at hpos1 ⊢; omega
+  · simpa using hrc1
+  · simp only []; rw [hlive1]; simp; omega
+
+theorem assignSelf_moved : ∀ (k : Nat) (s s' : BS α) (d r : Nat), assignSelf k s d r = some s' →
+    s'.moved = s.moved ∧ s'.cells.length = s.cells.length ∧ s'.n = s.n := by
+  intro k; induction k with
+  | zero => intro s s' d r h; simp [assignSelf] at h; subst h; exact ⟨rfl, rfl, rfl⟩
+  | succ k ih =>
+    intro s s' d r h
+    rw [assignSelf] at h
+    cases h0 : readCell s r with
+    | none => rw [h0] at h; simp at h
+    | some v =>
+      rw [h0, Option.bind_some] at h
+      cases h1 : assignCell s d v with
+      | none => rw [h1] at h; simp at h
+      | some s1 =>
+        rw [h1, Option.bind_some] at h
+        have a := assignCell_moved h1
+        have b := ih s1 s' _ _ h
+        have hn1 : s1.n = s.n := by
+          unfold assignCell at h1; split at h1
+          · injection h1 with h1; subst h1; rfl
+          · cases h1
+        exact ⟨b.1.trans a.1, b.2.1.trans a.2, b.2.2.trans hn1⟩
+
+/-- `a[d+i] = a[d+j+i]` ascending: the source runs ahead of the target, so every read sees the original element -/
+theorem assignSelf_fwd : ∀ (k : Nat) (L : List α) (s : BS α) (P B : Cells α) (d j : Nat),
+    s.cells = P ++ L.map some ++ B → d = P.length → j + k ≤ L.length →
+    assignSelf k s d (d + j) = some { s with cells := P ++ ((L.drop j).take k).map some ++ (L.drop k).map some ++ B } := by
+  intro k
+  induction k with
+  | zero => intro L s P B d j hc _ _; cases s; simp_all [assignSelf]
+  | succ k ih =>
+    intro L s P B d j hc hd hjk
+    match L, hjk with
+    | x0 :: L', hjk =>
+      have hjl : j < (x0 :: L').length := by omega
+      have hjl' : j ≤ L'.length := by simp at hjl; omega
+      have hx : (x0 :: L')[j]? = some ((x0 :: L')[j]) := List.getElem?_eq_getElem hjl
+      -- read at d + j
+      have hsplit : (x0 :: L') = (x0 :: L').take j ++ (x0 :: L')[j] :: (x0 :: L').drop (j + 1) := by
+        rw [List.getElem_cons_drop, List.take_append_drop]
+      have hcr : s.cells = (P ++ ((x0 :: L').take j).map some) ++ some ((x0 :: L')[j]) ::
+          (((x0 :: L').drop (j + 1)).map some ++ B) := by
+        have hm : (x0 :: L').map some = ((x0 :: L').take j ++ (x0 :: L')[j] :: (x0 :: L').drop (j + 1)).map some := by
+          rw [← hsplit]
+        rw [hc, hm]; simp only [List.map_append, List.map_cons, List.append_assoc, List.cons_append]
+      have hcw : s.cells = P ++ some x0 :: (L'.map some ++ B) := by rw [hc]; simp
+      rw [assignSelf, readCell_mid s _ _ (d + j) _ hcr (by simp [hd, Nat.min_eq_left hjl']; omega), Option.bind_some,
+        assignCell_mid s P _ d x0 _ hcw hd, Option.bind_some]
+      have hjk' : j + k ≤ L'.length := by simp at hjk; omega
+      have := ih L' { s with cells := P ++ some ((x0 :: L')[j]) :: (L'.map some ++ B) } (P ++ [some ((x0 :: L')[j])]) B (d + 1) j
+        (by simp) (by simp [hd]) hjk'
+      rw [show d + 1 + j = d + j + 1 by omega] at this
+      rw [this]
+      have e1 : ((x0 :: L').drop j).take (k + 1) = (x0 :: L')[j] :: (L'.drop j).take k := by
+        rw [← List.getElem_cons_drop hjl]; simp
+      rw [e1]; simp
+
+theorem refines_copyown (E : Elem α) (j k : Nat) :
+    Refines (fun s => let j' := j % (s.n + 1); copyOwn E s j' (k % (s.n - j' + 1)))
+      (fun l : List α => let j' := j % (l.length + 1); (l.drop j').take (k % (l.length - j' + 1))) := by
+  intro s l k0 h
+  have hn := h.1
+  dsimp only
+  rw [hn]
+  generalize hj : j % (l.length + 1) = j'
+  generalize hk : k % (l.length - j' + 1) = k'
+  have hk' : j' + k' ≤ l.length := by
+    have := Nat.mod_lt k (Nat.succ_pos (l.length - j')); rw [hk] at this
+    have : j' ≤ l.length := by rw [← hj]; exact Nat.le_of_lt_succ (Nat.mod_lt _ (Nat.succ_pos _))
+    omega
+  have hc : s.cells = [] ++ l.map some ++ List.replicate k0 none := by rw [h.2.1, cellsOf]; simp
+  have hs1 := assignSelf_fwd k' l s [] _ 0 j' hc rfl hk'
+  rw [Nat.zero_add] at hs1
+  have hrep1 : Rep ({ s with cells := [] ++ ((l.drop j').take k').map some ++ (l.drop k').map some ++ List.replicate k0 none } : BS α)
+      ((l.drop j').take k' ++ l.drop k') k0 := by
+    refine ⟨?_, ?_, ?_⟩
+    · simp [hn]; omega
+    · simp [cellsOf]
+    · have := h.2.2; simp; omega
+  obtain ⟨s2, k2, hs2, hrep2, hrc2, hlive2⟩ := resize_take E _ _ k0 k' hrep1 (by simp; omega)
+  have e : ((l.drop j').take k' ++ l.drop k').take k' = (l.drop j').take k' := by
+    rw [List.take_append_of_le_length (by simp; omega), List.take_of_length_le (by simp; omega)]
+  rw [e] at hrep2 hlive2
+  refine ⟨s2, k2, ?_, hrep2, hrc2, ?_⟩
+  · unfold copyOwn; rw [hs1, Option.bind_some]; exact hs2
+  · rw [hlive2]; simp; omega
+
+theorem nomove_copyown (E : Elem α) (j k : Nat) (l : List α) :
+    NoMoveAt (fun s => let j' := j % (s.n + 1); copyOwn E s j' (k % (s.n - j' + 1))) l := by
+  intro s k0 s' hr h
+  dsimp only at h
+  unfold copyOwn at h
+  cases h1 : assignSelf (k % (s.n - j % (s.n + 1) + 1)) s 0 (j % (s.n + 1)) with
+  | none => rw [h1] at h; simp at h
+  | some s1 =>
+    rw [h1, Option.bind_some] at h
+    obtain ⟨a1, a2, a3⟩ := assignSelf_moved _ _ _ _ _ h1
+    have hle := rep_n_le hr
+    have hkm : k % (s.n - j % (s.n + 1) + 1) ≤ s.n := by
+      have := Nat.mod_lt k (show 0 < s.n - j % (s.n + 1) + 1 by omega); omega
+    rw [resize_moved E (by rw [a2]; omega) h, a1]
+
+theorem refines_remx (E : Elem α) (i c : Nat) :
+    Refines (fun s => remove E s i c) (fun l : List α => if i + c > l.length then l else remAt l i c) := by
+  intro s l k h
+  dsimp only
+  by_cases hgt : i + c > l.length
+  · rw [if_pos hgt]
+    refine ⟨s, k, ?_, h, rfl, by simp⟩
+    unfold remove; simp only []; rw [if_pos (by rw [h.1]; exact hgt)]
+  · rw [if_neg hgt]
+    obtain ⟨s', k', g1, g2, g3, g4⟩ := remove_spec E s l k i c h (by omega)
+    exact ⟨s', k', g1, g2, g3, by rw [g4, remAt_length l _ _ (by omega)]; omega⟩
+
 end AslProofs.Arr
